@@ -37,6 +37,11 @@ def generate(rng, tier):
                 cases.append({"k": "crop", "regime": regime, "dur": d, "step": s, "start": st, "n": n,
                               "focus": ["tl", tl], "mode": rng.choice(list(MODES)), "fixed": None, "ndim": 2})
             cases.append({"k": "iter", "regime": regime, "dur": d, "step": s, "start": st, "n": n})
+    # decimal window parameters (the library default is 25 ms / 10 ms), every feature length up to 60 and some longer
+    for step, dur in ((0.01, 0.025), (0.1, 0.1), (0.3, 0.5), (0.016, 0.02), (1 / 3, 1.0), (0.02, 0.02)):
+        for n in (list(range(1, 61)) + [97, 128, 333] if tier == "thorough" else rng.sample(range(1, 61), 14) + [57, 97]):
+            cases.append({"k": "alignf", "regime": "K0", "step": step.hex(), "dur": dur.hex(),
+                          "start": rng.choice([0.0, 0.0, 0.5, -0.37, 12.34]).hex(), "n": n, "m": rng.choice([1, 2, 7, 14, 28, 56, 33])})
     kinds = {}
     for c in cases:
         kinds[c["k"]] = kinds.get(c["k"], 0) + 1
@@ -71,7 +76,7 @@ def _rows(arr, per, shape_tail):
 
 def run(case):
     import numpy as np
-    from pyannote.core import SlidingWindowFeature, Segment
+    from pyannote.core import SlidingWindowFeature, Segment, SlidingWindow
     tb = TB(case["regime"])
     tb.enter()
     try:
@@ -95,6 +100,24 @@ def run(case):
             ok = isinstance(r, SlidingWindowFeature) and r.sliding_window.step == f.sliding_window.step \
                 and r.sliding_window.duration == f.sliding_window.duration and r.labels == f.labels
             return {"obs": [_rows(r.data, per, f.data.shape[1:]), tb.u(r.sliding_window.start)], "ok": bool(ok), "nrows": nrows}
+        if k == "alignf":
+            fl = float.fromhex
+            n, m = case["n"], case["m"]
+            mk = lambda rows: SlidingWindowFeature(
+                np.arange(rows * 3, dtype=float).reshape((rows, 3)) ** 2 / 7.0,
+                SlidingWindow(duration=fl(case["dur"]), step=fl(case["step"]), start=fl(case["start"])), labels=["a", "b", "c"])
+            f, g = mk(n), mk(m)
+            al = f.align(f)
+            ok = isinstance(al, SlidingWindowFeature) and al.data.shape == f.data.shape \
+                and bool(np.allclose(al.data, f.data, rtol=1e-9, atol=1e-9)) and al.labels == f.labels \
+                and al.sliding_window.step == f.sliding_window.step and al.sliding_window.start == f.sliding_window.start
+            # aligned to another feature on the same window: one row per frame of the target, equal to the source's
+            # rows where both have the frame
+            ag = f.align(g)
+            k_ = min(n, m)
+            ok = ok and ag.data.shape == (m, 3) and bool(np.allclose(ag.data[:k_], f.data[:k_], rtol=1e-9, atol=1e-9))
+            ok = ok and len(list(f)) == n and len(f) == n and np.sqrt(f).data.shape == f.data.shape
+            return {"ok": bool(ok)}
         if k == "iter":
             f, per = _feature(tb, case)
             for _k, _x in enumerate(f):      # an iteration abandoned after two frames: the next one restarts at frame 0
@@ -121,6 +144,8 @@ def run(case):
 
 def encode(case, o):
     e = enc
+    if case["k"] == "alignf":
+        return f"KDriver {e.z(case['n'])} {e.b(o['ok'])}"
     eps = REGIMES[case["regime"]]["eps"]
     geo = f"{e.z(case['dur'])} {e.z(case['step'])} {e.z(case['start'])} {e.z(case['n'])}"
     k = case["k"]
